@@ -47,7 +47,7 @@ def _re_model(rep, ngroups_named):
 def run(ctx):
     from ofxtools import header as H
     rng = ctx.rng
-    codecs = dict(H.OFXHeaderV1.codecs)
+    codecs = dict(L.CHARSET_CODEC)
 
     # ================= 1. file-level: layouts =================
     cases = []
